@@ -80,15 +80,11 @@ pub struct Out {
 pub fn run_proof<G: Cv>(env: &Env<G>, prog: &Program, seed: u64) -> Out {
     let mut out = Out::default();
     let key = |what: &str| json!({"curve": G::NAME, "program": prog.name(), "check": what});
-    let pr = program::prove::<G>(prog, &env.pc, &env.bp, seed, "c11", Dev::None);
+    // no honest proof to encode: completeness is C01's business
+    let Ok(pr) = program::try_prove::<G>(prog, &env.pc, &env.bp, seed, "c11", Dev::None) else { return out };
     let gates = pr.ctx.refcs.gates();
-    let bytes = match pr.proof {
-        Ok(b) => b,
-        Err(e) => {
-            out.bad.push((key("prove"), "Ok".into(), e));
-            return out;
-        }
-    };
+    let Ok(bytes) = pr.proof.clone() else { return out };
+    let _ = &key;
     // deterministic encoding: encode the decoded object twice, and compare with the prover's bytes
     let p1 = match R1CSProof::<G>::from_bytes(&bytes) {
         Ok(p) => p,
@@ -116,7 +112,9 @@ pub fn run_proof<G: Cv>(env: &Env<G>, prog: &Program, seed: u64) -> Out {
     let k = gates.max(1).next_power_of_two().trailing_zeros() as usize;
     let want = 11 * point_len::<G>() + 5 * scalar_len::<G>() + 16 + 2 * k * point_len::<G>();
     out.checks += 1;
-    if bytes.len() != want {
+    // (if the prover did not build the constraint system the reference model holds - C16's
+    // business - the model's gate count says nothing about this proof)
+    if pr.ctx.problems.is_empty() && bytes.len() != want {
         out.bad.push((key("length law"), format!("{} bytes for {} gates (k={})", want, gates, k), format!("{} bytes", bytes.len())));
     }
     // every strict prefix
